@@ -46,7 +46,7 @@ class C06(HistoryCheck):
     LEVEL = "exploration"
     RUNS = {"quick": 1500, "thorough": 30000}
     PROFILE = {"allow_frozen": False, "allow_class_dnc": False, "allow_init_false": False,
-               "kinds": [k for k in COLL_KINDS if k != "list_optleaf"] + ["int", "str", "leaf"], "n_attrs": (2, 5)}  # (incl. List[Optional[int]])
+               "kinds": [k for k in COLL_KINDS if k != "list_optleaf"] + ["int", "str", "leaf"], "n_attrs": (2, 5)}  # (incl. List[Optional[int]], Dict[str, Optional[int]])
     OPGEN = {"p_bad": 0.12, "p_inplace": 0.45, "p_if_false": 0.0, "p_sentinel": 0.0, "exclude_fns": ["missing"],
              "weights": {"new": 2, "scalar": 1.5, "element": 14, "toplevel": 0.5, "set": 1, "del": 0.7, "get": 0.2,
                          "deepcopy": 0.3}}
